@@ -37,8 +37,9 @@ def observe_conn(cd):
     from compmech.sparse import make_symmetric
     p1 = panelmat.build_panel(cd["pd1"])
     p2 = panelmat.build_panel(cd["pd2"])
-    for p in (p1, p2):
-        p.calc_k0(silent=True)          # documented order: panels' own matrices (and laminates) first
+    if not cd.get("fresh"):
+        for p in (p1, p2):
+            p.calc_k0(silent=True)          # documented order: panels' own matrices (and laminates) first
     n1, n2, off1, off2, size = sizes(cd)
     pos1, pos2 = float(fr(cd["pos1"])), float(fr(cd["pos2"]))
     kind = cd["kind"]
@@ -79,8 +80,9 @@ def observe_ktkr(cd):
     from compmech.panel.connections import calc_kt_kr
     p1 = panelmat.build_panel(cd["pd1"])
     p2 = panelmat.build_panel(cd["pd2"])
-    for p in (p1, p2):
-        p.calc_k0(silent=True)
+    if not cd.get("fresh"):
+        for p in (p1, p2):
+            p.calc_k0(silent=True)
     kt, kr = calc_kt_kr(p1, p2, CTYPE[cd["kind"]])
     return [dyadic(kt), dyadic(kr if kr is not None else 0.0)]
 
@@ -110,6 +112,24 @@ def random_cd(rng):
                 auto=auto, first=rng.choice([1, 2]), pad=rng.choice([0, 0, 3, 6]) if auto else rng.choice([0, 2, 5]))
 
 
+def material_study(cd, factor):
+    """the same connection between FRESH panels about their mid-planes (penalty constants and connection matrix asked
+    before any stiffness call), for the given materials and for materials with all moduli scaled by `factor`:
+    every answer must follow the panels' own materials, whatever was evaluated before in the same process"""
+    import copy
+    out = []
+    for f in (1, factor):
+        c = copy.deepcopy(cd)
+        for pd in (c["pd1"], c["pd2"]):
+            pd["off"] = rat(0)
+            pd.pop("ortho", None)
+            for ply in pd["stack"]:
+                ply["mat"] = [rat(fr(v) * f) if k in (0, 1, 3, 4, 5, 6) else v for k, v in enumerate(ply["mat"])]
+        c.update(fresh=True, auto=True, pad=0)
+        out.append(c)
+    return out
+
+
 def run(tier, seed, build):
     rep = Report("C12", tier, seed)
     rng = random.Random(seed)
@@ -126,6 +146,11 @@ def run(tier, seed, build):
     cds = [v[1] for v in printed_values(mc.out, "CONN")]
     nrand = 24 if tier == "quick" else 400
     cds += [random_cd(rng) for _ in range(nrand)]
+    studies = []
+    for k, cd in enumerate(list(cds)):
+        if k % (6 if tier == "quick" else 3) == 1:
+            studies += material_study(cd, Fraction(3) if k % 2 else Fraction(1, 2))
+    cds += studies
     events, meta = [], {}
     for cd in cds:
         try:
@@ -138,7 +163,7 @@ def run(tier, seed, build):
         events.append(e)
         rep.nontrivial((cd["kind"], repr(cd["pd1"]), repr(cd["pd2"]), repr(cd["pos1"]), repr(cd["pos2"]), cd["auto"],
                         cd["first"], cd["pad"]))
-        if cd["auto"]:
+        if cd["auto"] or cd.get("fresh"):
             e2 = dict(ev="ktkr", id=len(events), cd=cd, obs=observe_ktkr(cd))
             meta[e2["id"]] = cd
             events.append(e2)
@@ -168,7 +193,8 @@ def run(tier, seed, build):
                        "and PanelAssembly.get_k0_conn + %d seeded random ones; distinct = distinct description" % nrand)
     rep.assumptions += ["explicit-constant cases sum the three kernel blocks as a correct assembly would (diagonal blocks "
                         "mirrored with the package's make_symmetric, coupling block plus its transpose); derived-constant cases "
-                        "go through PanelAssembly.get_k0_conn after each panel's calc_k0 (documented order)",
+                        "go through PanelAssembly.get_k0_conn after each panel's calc_k0 (documented order); material studies ask "
+                        "calc_kt_kr / get_k0_conn on fresh mid-plane panels before any stiffness call, for two materials in a row",
                         "tolerance 2^-%d of the term-magnitude scale" % TOL]
     return rep.finish()
 
